@@ -198,8 +198,8 @@ func (x *Exec) callFn(st *State, fn *ssa.Function, bind []Val, args []Val, pos t
 				x.fail("blockSep: arguments must be pointers or slices")
 			}
 			var bs []*Term
-			for ta := 0; ta <= ra.MaxTag; ta++ {
-				for tb := 0; tb <= rb.MaxTag; tb++ {
+			for _, ta := range ra.tagSet() {
+				for _, tb := range rb.tagSet() {
 					bs = append(bs, Neq(BVAdd(ra.Blk, BV(int64(ta), 32)), BVAdd(rb.Blk, BV(int64(tb), 32))))
 				}
 			}
@@ -328,8 +328,8 @@ func (x *Exec) sepIntrinsic(st *State, args []Val) Val {
 
 func regionsDisjoint(a, b Region) *Term {
 	var bs []*Term
-	for ta := 0; ta <= a.MaxTag; ta++ {
-		for tb := 0; tb <= b.MaxTag; tb++ {
+	for _, ta := range a.tagSet() {
+		for _, tb := range b.tagSet() {
 			bs = append(bs, Neq(BVAdd(a.Blk, BV(int64(ta), 32)), BVAdd(b.Blk, BV(int64(tb), 32))))
 		}
 	}
@@ -479,7 +479,7 @@ func (x *Exec) callContract(st *State, fi *FuncInfo, args []Val, pos token.Pos, 
 				alts = append(alts, ULT(r.Blk, BV(localBlkLimit, 32)), Eq(r.N, BV(0, 64)))
 				for _, cr := range x.regions {
 					var bs []*Term
-					for t := 0; t <= cr.MaxTag; t++ {
+					for _, t := range cr.tagSet() {
 						bs = append(bs, Eq(r.Blk, BVAdd(cr.Blk, BV(int64(t), 32))))
 					}
 					alts = append(alts, And(Or(bs...), ULE(cr.Off, r.Off), ULE(BVAdd(r.Off, r.N), BVAdd(cr.Off, cr.N)), ULE(r.Off, BVAdd(r.Off, r.N))))
@@ -961,7 +961,7 @@ func (x *Exec) prologue() (*State, []Val) {
 		switch t.Underlying().(type) {
 		case *types.Pointer, *types.Slice:
 			blk := args[i].C[0]
-			x.assume(True(), And(Or(Eq(blk, BV(0, 32)), UGE(blk, BV(paramBlkBase, 32))), Eq(BVAnd(blk, BV(63, 32)), BV(0, 32)), ULE(blk, BV(0xffffffc0, 32))))
+			x.assume(True(), And(Or(Eq(blk, BV(0, 32)), UGE(blk, BV(paramBlkBase, 32))), Eq(BVAnd(blk, BV(4095, 32)), BV(0, 32)), ULE(blk, BV(0xfffff000, 32))))
 			if r := regionOfTyped(t, args[i]); r != nil {
 				preg = append(preg, *r)
 			}
@@ -970,7 +970,7 @@ func (x *Exec) prologue() (*State, []Val) {
 			}
 		case *types.Interface:
 			blk := args[i].C[1]
-			x.assume(True(), And(Or(Eq(blk, BV(0, 32)), UGE(blk, BV(paramBlkBase, 32))), Eq(BVAnd(blk, BV(63, 32)), BV(0, 32)), ULE(blk, BV(0xffffffc0, 32))))
+			x.assume(True(), And(Or(Eq(blk, BV(0, 32)), UGE(blk, BV(paramBlkBase, 32))), Eq(BVAnd(blk, BV(4095, 32)), BV(0, 32)), ULE(blk, BV(0xfffff000, 32))))
 			// the dynamic value: a pointer to the single implementation known in the package
 			if impls := x.W.ifaceImpls(t); len(impls) == 1 {
 				pt := impls[0].(*types.Pointer)
@@ -1007,6 +1007,12 @@ func (x *Exec) prologue() (*State, []Val) {
 			x.assume(True(), regionsDisjoint(preg[a], preg[b]))
 		}
 	}
+	for k, g := range fi.Split {
+		if x.lawMode {
+			break // laws are proved without case analysis
+		}
+		x.applySplitC(st, x.evalGen(g, st, x.genArgs(g, args, nil, nil, nil, st)).C[0], fi.C.Splits[k])
+	}
 	// requires
 	for k, g := range fi.Req {
 		c := fi.C.Requires[k]
@@ -1020,12 +1026,6 @@ func (x *Exec) prologue() (*State, []Val) {
 	}
 	x.cover("requires/cover", st)
 	x.olds = x.snapshotOlds(fi, st, args)
-	for k, g := range fi.Split {
-		if x.lawMode {
-			break // laws are proved without case analysis
-		}
-		x.applySplitC(st, x.evalGen(g, st, x.genArgs(g, args, nil, nil, nil, st)).C[0], fi.C.Splits[k])
-	}
 	// modifies regions
 	for _, g := range fi.Mod {
 		v := x.evalGen(g, st, x.genArgs(g, args, nil, nil, nil, st))
